@@ -78,6 +78,10 @@ func c17(r *vlib.Run) int {
 			c17EntryRemoved(r, i, crng, keys, keyFiles, client)
 			return
 		}
+		if i%16 == 11 {
+			c17Damaged(r, i, crng, keys, keyFiles, client)
+			return
+		}
 		if i%8 == 7 {
 			c17Reconnect(r, i, crng, keys, keyFiles, client)
 			return
@@ -417,6 +421,55 @@ func c17Reconnect(r *vlib.Run, i int, rng *rand.Rand, keys []*vlib.Key, keyFiles
 		if sh && keyByConn[c] != 0 {
 			r.Violation("untrusted-server-received-commands", map[string]interface{}{"scenario": "server presented a different host key on reconnect; the user answered no",
 				"connection": c, "first_key_known": firstKnown, "connections": conns})
+			return
+		}
+	}
+}
+
+// c17Damaged: known_hosts cannot be parsed (a damaged line). Nothing can be
+// verified then: whatever the user answers and whether or not the server's key
+// is listed in one of the intact lines, no server may receive commands - a
+// client that cannot check host keys must not fall back to trusting everybody.
+func c17Damaged(r *vlib.Run, i int, rng *rand.Rand, keys []*vlib.Key, keyFiles []string, client *vlib.Key) {
+	port := vlib.FreePort()
+	k1 := rng.Intn(5)
+	home, keyFile := r.ClientHome(fmt.Sprintf("c17d-%d", i), client)
+	defer os.RemoveAll(home)
+	addr := fmt.Sprintf("127.0.0.1:%d", port)
+	lines := c17Unrelated(rng, keys)
+	listed := rng.Intn(2) == 0
+	if listed {
+		lines = append(lines, khLine(addr, keys[k1]))
+	}
+	bad := []string{"this is not a known_hosts line", "somehost ssh-rsa not-base64!!", "@unknown-marker h ssh-ed25519 AAAA", "onlyonefield", "h1,h2 ssh-ed25519"}[rng.Intn(5)]
+	pos := rng.Intn(len(lines) + 1)
+	lines = append(lines[:pos:pos], append([]string{bad}, lines[pos:]...)...)
+	khPath := filepath.Join(home, ".ssh", "known_hosts")
+	before := strings.Join(lines, "\n") + "\n"
+	os.WriteFile(khPath, []byte(before), 0600)
+	f, err := startFakeSSHD(r, fmt.Sprintf("c17d-%d", i), []int{port}, []string{keyFiles[k1]}, "", 200)
+	if err != nil {
+		r.Inconclusive("fakesshd")
+		return
+	}
+	defer f.Stop()
+	answer := []string{"y\n", "n\n", "a\n", "\n"}[rng.Intn(4)]
+	args := []string{"--cfg", "none", "--logger", "none", "--key", keyFile, "--user", "tester", "--servers", addr, "--files", "/var/log/x.log"}
+	pr, pw, _ := os.Pipe()
+	pw.WriteString(answer + "n\nn\nn\n")
+	defer pw.Close()
+	res := runWithStdinFile(r, "dcat", args, home, pr)
+	pr.Close()
+	r.Eval(fmt.Sprintf("damaged|%q|%v|%q", bad, listed, answer))
+	r.Count("damaged_known_hosts_cases", 1)
+	if res.TimedOut {
+		r.Inconclusive("dcat-watchdog")
+		return
+	}
+	for _, e := range f.Events() {
+		if e.Ev == "shell" || e.Ev == "data" {
+			r.Violation("untrusted-server-received-commands", map[string]interface{}{"scenario": "known_hosts contains a line that cannot be parsed: host keys cannot be verified",
+				"damaged_line": bad, "server_key_listed_in_an_intact_line": listed, "answer": answer, "known_hosts": vlib.Trunc(before, 600)})
 			return
 		}
 	}
